@@ -10,6 +10,9 @@ SPEC = os.path.join(common.VERIF, "spec", "SeqFuns")
 TWO = ("search", "mismatch", "replace", "concatenate", "map+", "append", "union", "intersection", "set-difference", "subsetp", "merge")
 
 
+DESTRUCTIVE = ("delete", "delete-if", "delete-if-not", "nreverse", "fill", "replace", "sort", "stable-sort", "merge")
+
+
 def norm(v, kind_t):
     """Projected slip value -> python value of the row's result type (or ('?', v) when it has another shape)."""
     k = v.get("k")
@@ -57,6 +60,9 @@ def expected(row):
 def known_shape(row, kind, cell, got, want):
     """Open finding whose recorded shape this mismatch has, or None (everything else is a violation)."""
     fn, kw = row["fn"], row["kw"]
+    # :test-not: rejected as an unknown keyword, or (substitute) accepted and ignored
+    if kw["test"] in ("neql", "nlt") and (("keyword must be" in cell.get("msg", "") and cell["st"] == "type-error") or (fn == "substitute" and not cell["st"])):
+        return "test-not-unsupported"
     if fn.endswith("-if-not") and cell["st"] == "undefined-function":
         return "if-not-variants-missing"
     if cell["st"] and (len(row["a"]) == 0 or (fn in TWO and len(row["b"]) == 0)):
@@ -70,6 +76,9 @@ def known_shape(row, kind, cell, got, want):
             return "search-empty-pattern"
     if fn.startswith("substitute") and kw["cnt"] >= 0 and not cell["st"]:
         return "substitute-with-count"
+    # mismatch :from-end: exactly the result of the named deviation of the specification
+    if fn == "mismatch" and kw["fe"] and not cell["st"] and "dev" in row and got == (None if row["dev"]["none"] else row["dev"]["v"]):
+        return "mismatch-from-end-index"
     return None
 
 
@@ -104,6 +113,13 @@ def run(tier, seed):
                         why = f"=> {got}, want a permutation of the input ordered by the key"
                 elif got != want:
                     why = f"=> {got}, want {want}"
+                # a function that is not destructive leaves its arguments as they were
+                if not why and row["fn"] not in DESTRUCTIVE and row["fn"] not in ("assoc", "rassoc"):
+                    for name, orig in (("a", row["a"]), ("b", row["b"])):
+                        after = norm(cell[name], "seq")
+                        if after != list(orig):
+                            why = f"changed its {'first' if name == 'a' else 'second'} sequence argument {list(orig)} into {after}"
+                            got = ("argument", name)
             if not why:
                 continue
             feat = known_shape(row, kind, cell, got, want)
